@@ -9,6 +9,10 @@
 //     Then a sequential history of close / re-register (same and other session) / register / session drop
 //     with acknowledgement barriers, each step followed by targeted and random requests on the same
 //     keep-alive connections, and a three-way comparison model vs. server route tables (verif snapshot).
+//     Requests use all nine HTTP methods the control-port muxer sniffs, as first request of a fresh connection
+//     and later on keep-alive connections, with paths/locations around the websocket signature "GET /~!frp" of the
+//     control port; a 404/301 of Go's plain HTTP server or a TLS handshake answer is attributed to another
+//     listener of the shared port (keys shared-port-request-*-claimed-by-control-listener).
 //  2. history cases: concurrent registrars and traffic on a few contended triples; the recorded history
 //     (client-boundary call/return times) is checked with porcupine against the map model + specification;
 //     state-independent pre-checks: no answer by a proxy whose close was acknowledged before the request was
